@@ -659,6 +659,8 @@ class D08(Extra):
                 for t, x in r['value']:
                     tt = math.inf if t == 'inf' else (-math.inf if t == '-inf' else t)
                     xx = math.inf if x == 'inf' else (-math.inf if x == '-inf' else x)
+                    if x == 'nan' or t == 'nan':
+                        return 'dropped', None       # inf - inf under iff/xor: outside the domain where float arithmetic is exact
                     if not isinstance(tt, (int, float)) or not isinstance(xx, (int, float)):
                         return 'violation', dict(d2, observed={'malformed sample': [t, x]})
                     val.append([tt / (dense.SCALE * k) if abs(tt) != math.inf else tt, xx])
